@@ -5,6 +5,8 @@
 #include <unordered_map>
 #include <algorithm>
 #include <sanitizer/asan_interface.h>
+#include <execinfo.h>
+#include <unistd.h>
 
 extern "C" {
 void *__real_malloc(size_t);
@@ -18,7 +20,8 @@ void __real__mpt_abort(const char *, const char *, const char *, int);
 namespace sim {
 Seams g;
 
-struct Info { size_t size; uint64_t serial; };
+struct Info { size_t size; uint64_t serial; void *bt[14]; int nbt; };
+static int dbg_bt() { static int d = -1; if (d < 0) d = getenv("VERIF_LEDGER_BT") ? 1 : 0; return d; }
 static std::unordered_map<const void *, Info> *led;
 static uint64_t serial;
 
@@ -26,7 +29,8 @@ static void led_add(const void *p, size_t n) {
 	if (!p) return;
 	++g.reent;
 	if (!led) led = new std::unordered_map<const void *, Info>();
-	(*led)[p] = Info{n, ++serial};
+	Info inf; inf.size = n; inf.serial = ++serial; inf.nbt = dbg_bt() ? backtrace(inf.bt, 14) : 0;
+	(*led)[p] = inf;
 	--g.reent;
 }
 static void led_del(const void *p) {
@@ -54,6 +58,7 @@ std::string ledger_describe(size_t max) {
 		s += b;
 	}
 	if (v.size() > max) s += " ...";
+	if (dbg_bt() && led) for (auto &e : *led) { fprintf(stderr, "LEAKED block #%llu (%zu bytes) allocated at:\n", (unsigned long long) e.second.serial, e.second.size); backtrace_symbols_fd(e.second.bt, e.second.nbt, 2); }
 	return s;
 }
 static inline bool should_fail() {
